@@ -633,6 +633,32 @@ def C06.upRemovalBad (c : Ctx) (j : Journal) : List String :=
         if gone.isEmpty then [] else ["removal of tainted nodes " ++ toString gone.eraseDups ++ " in a scan above the scale-up threshold"]
       else []
 
+/-- C10, "does not hold back the removal of other eligible nodes": in a scan whose reaper runs (unlocked, within bounds,
+    at or above the minimum, utilisation clearly not above the scale-up threshold, decision ≤ 0), with a protected tainted
+    node in view, no force candidates, every grace candidate a member, room above the cloud minimum for all of them and
+    no refused cloud call, every grace candidate's instance must have been sent for termination. -/
+def C10.holdbackBad (c : Ctx) (obsDelta : Int) (j : Journal) : List String :=
+  let unt := nodesOf c.dry c.st .untainted c.view.nodes
+  let tainted := nodesOf c.dry c.st .tainted c.view.nodes
+  let n : Int := c.view.nodes.length
+  let fc := forceCands c.dry c.view.pods (nodesOf c.dry c.st .force c.view.nodes)
+  let rc := reaperCands c.dry c.cfg c.view.pods c.nowMock tainted
+  if c.dry || lockHeld c.st.lock c.cfg.coolNs c.nowReal || n < c.st.minEff || n > c.st.maxEff ||
+     (unt.length : Int) < c.st.minEff || obsDelta > 0 || !fc.isEmpty || rc.isEmpty ||
+     !tainted.any protectedNode || !rc.all (fun x => belongs c.g x) ||
+     c.g.asg.desired - rc.length < c.g.asg.min ||
+     j.any (fun e => !e.ok && (match e.call with | .terminateInAsg .. => true | _ => false)) then []
+  else
+    match exactUtil c with
+    | none => []
+    | some u =>
+      if !clearlyBelow u c.cfg.scaleUp then [] else
+      let sent := j.filterMap (fun e => match e.call with | .terminateInAsg id _ => some id | _ => none)
+      let left := rc.filter (fun x => !sent.contains (instanceIdFor c.g x))
+      if left.isEmpty then [] else
+        ["nodes " ++ toString (left.map (·.name)) ++ " are past their grace period and removable, but were not sent for termination in a scan that has the protected node(s) " ++
+         toString ((tainted.filter protectedNode).map (·.name)) ++ " in view"]
+
 /-- The decision itself (the delta the scan settles on), in every mode including dry mode, against the
     exact utilisation over the untainted uncordoned nodes: −fast / −slow / 0 / positive by band. Judged when
     the group is unlocked, within its node-count bounds, at or above its minimum and no trigger is configured. -/
